@@ -2,8 +2,8 @@
 (* Property-level specification of C12 (pausing a track freezes its subtree;*)
 (* removal follows handle/persistence rules), from the property statement.  *)
 (*                                                                          *)
-(* Scene watched by one monitor: main track <- track A <- track B, sound SA *)
-(* on A, sound SB on B (index-coded, separately audible).                   *)
+(* Scene watched by one monitor: a chain main <- A <- B [<- C] of depth 2 or  *)
+(* 3, one index-coded, separately audible sound per track (SA, SB, SC).      *)
 (* Events                                                                   *)
 (*   cmd  t c d          pause / resume / resume_at written to track t      *)
 (*   drop t              the handle of track t was dropped                  *)
@@ -12,25 +12,30 @@
 (*        st[t]    TrackHandle::state() of t ("gone" if its handle is gone, *)
 (*                 "panic" if the query panicked)                           *)
 (*        first[s] first source frame heard from s in this callback, -1 if  *)
-(*                 s was silent, -2 if audible but faded (not decodable)    *)
+(*                 s was silent, -2 if audible but faded (not decodable),   *)
+(*                 -4 if the driver cannot tell (two sounds share a channel *)
+(*                 and only a faint residue is there): no claim             *)
 (*        zero[s]  s contributed exact silence                              *)
-(*        ntop     manager.num_sub_tracks(), nA = A.num_sub_tracks() or -1  *)
+(*        ntop     manager.num_sub_tracks(); nA, nB = num_sub_tracks() of A *)
+(*                 and B, or -1 when that handle is gone                    *)
 (*        sst[s]   state of sound s                                         *)
 EXTENDS Integers, FiniteSets, Sequences
 
-Tracks == {"A", "B"}
-Sounds == {"SA", "SB"}
+Tracks == {"A", "B", "C"}
+Sounds == {"SA", "SB", "SC"}
 TrackStates == {"Playing", "Pausing", "Paused", "WaitingToResume", "Resuming"}
 FrozenT == {"Paused", "WaitingToResume"}
-Above(s) == IF s = "SA" THEN {"A"} ELSE {"A", "B"}     \* tracks on the path from the sound to the main track
-Host(s)  == IF s = "SA" THEN "A" ELSE "B"
+Above(s) == CASE s = "SA" -> {"A"} [] s = "SB" -> {"A", "B"} [] OTHER -> {"A", "B", "C"}   \* tracks on the path to the main track
+Host(s)  == CASE s = "SA" -> "A" [] s = "SB" -> "B" [] OTHER -> "C"
+SoundOf(t) == CASE t = "A" -> "SA" [] t = "B" -> "SB" [] OTHER -> "SC"
+ChildOf(t) == CASE t = "A" -> "B" [] t = "B" -> "C" [] OTHER -> "none"
 
-PInit(persist, n) ==
+PInit(persist, n, depth) ==
   [ n |-> n, persist |-> persist,              \* persist[t]: built with persist_until_sounds_finish
     k |-> 0,
     st |-> [t \in Tracks |-> "Playing"],       \* last observed track states
     touched |-> {},                            \* tracks that received a command since the last callback
-    dropped |-> {}, gone |-> {},               \* handles dropped / tracks known to be removed
+    dropped |-> {}, gone |-> IF depth = 2 THEN {"C"} ELSE {},   \* handles dropped / tracks known to be removed (or never built)
     since |-> [t \in Tracks |-> -1],           \* callback count at which t became removable (-1: not)
     finished |-> {},                           \* sounds known to be Stopped
     stopReq |-> {},
@@ -38,15 +43,17 @@ PInit(persist, n) ==
     slack |-> [s \in Sounds |-> FALSE] ]       \* a resume at a start time may begin its fade-in one callback after the
                                                \* start time ("within one callback"): the sound may be one callback further
 
+\* a track can be removed once its handle is gone, nothing below it is alive any more (or can go with it), and - if
+\* it persists until its sounds finish - its sound has finished
+RECURSIVE Removable(_, _, _)
 Removable(m, t, fin) ==
-  IF t = "B" THEN "B" \in m.dropped /\ (m.persist["B"] => "SB" \in fin)
-  ELSE /\ "A" \in m.dropped
-       /\ ("B" \in m.gone \/ ("B" \in m.dropped /\ (m.persist["B"] => "SB" \in fin)))
-       /\ (m.persist["A"] => "SA" \in fin)
+  /\ t \in m.dropped
+  /\ (m.persist[t] => SoundOf(t) \in fin)
+  /\ (ChildOf(t) = "none" \/ ChildOf(t) \in m.gone \/ Removable(m, ChildOf(t), fin))
 
 \* what the counts say about which tracks still exist
-SeenGone(e) == (IF e.ntop = 0 THEN {"A", "B"} ELSE {}) \cup (IF e.nA = 0 THEN {"B"} ELSE {})
-SeenAlive(e) == (IF e.ntop = 1 THEN {"A"} ELSE {}) \cup (IF e.nA = 1 THEN {"B"} ELSE {})
+SeenGone(e) == (IF e.ntop = 0 THEN {"A", "B", "C"} ELSE {}) \cup (IF e.nA = 0 THEN {"B", "C"} ELSE {}) \cup (IF e.nB = 0 THEN {"C"} ELSE {})
+SeenAlive(e) == (IF e.ntop = 1 THEN {"A"} ELSE {}) \cup (IF e.nA = 1 THEN {"B"} ELSE {}) \cup (IF e.nB = 1 THEN {"C"} ELSE {})
 
 \* a track spent the whole callback frozen: frozen before, frozen after, nothing written to it
 Unknown == -9
@@ -60,7 +67,7 @@ Check(m, e) ==
   CASE e.a = "cb" ->
          IF e.panicked THEN "no_panic"
          ELSE IF \E t \in Tracks : e.st[t] \notin TrackStates \cup {"gone"} THEN "state_is_one_of_five_and_never_panics"
-         ELSE IF \E s \in Sounds : (\E t \in Above(s) : FrozenThrough(m, e, t) /\ t \notin m.gone) /\ ~e.zero[s]
+         ELSE IF \E s \in Sounds : (\E t \in Above(s) : FrozenThrough(m, e, t) /\ t \notin m.gone) /\ ~e.zero[s] /\ e.first[s] # -4
               THEN "subtree_silent_while_paused"
          ELSE IF \E s \in Sounds : e.first[s] >= 0 /\ m.nx[s] # Unknown /\ e.first[s] # m.nx[s]
                                     /\ ~(m.slack[s] /\ e.first[s] = m.nx[s] + m.n)
@@ -70,10 +77,10 @@ Check(m, e) ==
          \* ... and by the second callback after it became removable
          \* (a persisting track: its finished sound is unloaded first, then the track)
          ELSE IF \E t \in SeenAlive(e) : m.since[t] # -1
-                  /\ m.k + 1 - m.since[t] >= (IF m.persist[t] \/ (t = "A" /\ m.persist["B"]) THEN 3 ELSE 1)
+                  /\ m.k + 1 - m.since[t] >= (IF \E u \in Tracks : m.persist[u] THEN 3 ELSE 1)
               THEN "removed_at_next_callback"
          \* a removed track's sounds are silent
-         ELSE IF \E s \in Sounds : Host(s) \in (m.gone \cup SeenGone(e)) /\ ~e.zero[s] THEN "removed_track_is_silent"
+         ELSE IF \E s \in Sounds : Host(s) \in (m.gone \cup SeenGone(e)) /\ ~e.zero[s] /\ e.first[s] # -4 THEN "removed_track_is_silent"
          ELSE ""
     [] e.a = "panic" -> "no_panic"
     [] e.a = "hang" -> "returns_promptly"
@@ -97,7 +104,7 @@ Upd(m, e) ==
                    \* a silent callback leaves the expected frame unchanged only if the sound is known to be frozen
                    !.nx = [s \in Sounds |->
                              IF e.first[s] >= 0 THEN e.first[s] + m.n
-                             ELSE IF m.nx[s] = Unknown THEN Unknown
+                             ELSE IF m.nx[s] = Unknown \/ e.first[s] = -4 THEN Unknown
                              ELSE IF e.first[s] = -2 THEN m.nx[s] + m.n
                              ELSE IF \E t \in Above(s) : FrozenThrough(m, e, t) \/ StartArrives(m, e, t) THEN m.nx[s]
                              ELSE Unknown],
